@@ -3,6 +3,7 @@ import hashlib
 import json
 import os
 import sys
+import random
 import time
 
 import checklib
@@ -135,7 +136,32 @@ reg("C11", exc_ops={"Reopen", "Clear", "Recreate", "ClearKeep"}, nontrivial=nt_p
     roles=[("file", ()), ("file", ("Reopen",))], pairname="C11.twin", prefixes=["C11."],
     weights={"Reopen": 24, "Clear": 10, "Recreate": 3, "AddRule": 8, "CreateWe": 16, "DeleteWe": 6, "AddPage": 26},
     profile={"raw": 0.1, "long": 0.3, "nlrus": 12}, n=(60, 600), steps=(16, 24), title="Close/reopen/clear")
+def id_boundary_traces(pid, cfg, tier, seed, work, first_id, hook=None):
+    """Histories that issue exactly 256 (and 257) webentity ids - the first width boundary of the id
+    field - then close, reopen and create again.  Large states: two traces (four in the thorough tier)."""
+    out = []
+    rng = random.Random(seed * 17 + 3)
+    variants = [(256, "domain", False), (255, "domain", True)] + ([(256, "subdomain", True), (512, "domain", False)]
+                                                                   if tier != "quick" else [])
+    for j, (n, kind, dele) in enumerate(variants):
+        hosts = [b"s:http|h:com|h:d%03d|" % i for i in range(n)]
+        rng.shuffle(hosts)
+        ops = [{"op": "AddPages", "ls": hosts[c:c + 64], "cr": False} for c in range(0, n, 64)]
+        if dele:      # the most recent id belongs to a webentity since deleted
+            last = hosts[-1]
+            ops.append({"op": "CreateWe", "ps": [b"s:http|h:org|h:gone|"]})
+            ops.append({"op": "DeleteWe", "id": n + 1, "ps": [b"s:http|h:org|h:gone|"]})
+        ops += [{"op": "Reopen", "def": {"k": kind}, "rules": []},
+                {"op": "CreateWe", "ps": [b"s:http|h:org|h:x|"]},
+                {"op": "AddPage", "l": b"s:http|h:fr|h:y|p:a|", "cr": True},
+                {"op": "Reopen", "def": {"k": kind}, "rules": []},
+                {"op": "AddPage", "l": b"s:https|h:fr|h:z|", "cr": False}]
+        out.append(runner.run_fixed("file", {"k": kind}, [], ops, hook=hook, tid=first_id + j, src="id-boundary"))
+    return out, {"id_boundary_histories": len(out)}
+
+
 reg("C12", exc_ops=set(), nontrivial=nt_we, mc=[("core", 4, 5), ("we", 4, 5)], gen_mc="we",
+    extra_sources=(tlcgen.tlc_traces, tlcgen.repo_test_traces, id_boundary_traces),
     weights={"CreateWe": 14, "DeleteWe": 8, "Reopen": 18, "AddRule": 12, "Clear": 3, "AddPage": 26},
     profile={"raw": 0.0, "long": 0.1, "persist": 0.6}, n=(200, 2000), title="Webentity ids")
 reg("C13", exc_ops=set(), nontrivial=nt_we, hook="hierarchy", obs_fail=False, mc=[("core", 4, 5), ("we", 4, 5)],
